@@ -1549,6 +1549,7 @@ class Message(ABC):
                     if (
                         value != DATETIME_ZERO
                         or include_default_values
+                        or meta.optional
                         or self._include_default_value_for_oneof(
                             field_name=field_name, meta=meta
                         )
@@ -1558,6 +1559,7 @@ class Message(ABC):
                     if (
                         value != timedelta(0)
                         or include_default_values
+                        or meta.optional
                         or self._include_default_value_for_oneof(
                             field_name=field_name, meta=meta
                         )
@@ -1592,6 +1594,7 @@ class Message(ABC):
                 elif (
                     value._serialized_on_wire
                     or include_default_values
+                    or meta.optional
                     or self._include_default_value_for_oneof(
                         field_name=field_name, meta=meta
                     )
@@ -1895,6 +1898,7 @@ class Message(ABC):
                     if (
                         value != DATETIME_ZERO
                         or include_default_values
+                        or meta.optional
                         or self._include_default_value_for_oneof(
                             field_name=field_name, meta=meta
                         )
@@ -1904,6 +1908,7 @@ class Message(ABC):
                     if (
                         value != timedelta(0)
                         or include_default_values
+                        or meta.optional
                         or self._include_default_value_for_oneof(
                             field_name=field_name, meta=meta
                         )
@@ -1930,6 +1935,7 @@ class Message(ABC):
                 elif (
                     value._serialized_on_wire
                     or include_default_values
+                    or meta.optional
                     or self._include_default_value_for_oneof(
                         field_name=field_name, meta=meta
                     )
